@@ -7,6 +7,8 @@ import (
 	"fmt"
 	"math/rand"
 	"os"
+	"path/filepath"
+	"sort"
 	"strings"
 	"sync"
 	"testing"
@@ -34,6 +36,37 @@ func (Engine) Decode(raw json.RawMessage) (any, error) {
 }
 
 // Generate implements simkit.Engine.
+// directedScenario: mode "directed" re-runs the hand-written / minimised scenarios kept under
+// <verif>/directed/*.json (regressions of repaired findings) with all oracles; the i-th run is the i-th file.
+func directedScenario(cfg simkit.RunConfig) (any, bool) {
+	root := os.Getenv("VERIF_ROOT")
+	if root == "" {
+		root = "/verif"
+	}
+	files, _ := filepath.Glob(filepath.Join(root, "directed", "*.json"))
+	sort.Strings(files)
+	if cfg.Index >= len(files) {
+		return nil, false
+	}
+	raw, err := os.ReadFile(files[cfg.Index])
+	if err != nil {
+		return nil, false
+	}
+	var rf struct {
+		Seed     uint64          `json:"seed"`
+		Scenario json.RawMessage `json:"scenario"`
+	}
+	if json.Unmarshal(raw, &rf) != nil {
+		return nil, false
+	}
+	sc, err := Engine{}.Decode(rf.Scenario)
+	if err != nil {
+		return nil, false
+	}
+	sc.(*Scenario).Seed = rf.Seed
+	return sc, true
+}
+
 func (Engine) Generate(cfg simkit.RunConfig) (any, bool) {
 	// a mode name ending in "-R" runs on the reference backend (all commit modes: 2PC, async commit, 1PC)
 	backend := "M"
@@ -49,6 +82,8 @@ func (Engine) Generate(cfg simkit.RunConfig) (any, bool) {
 		async, onepc = 0.4, 0.3
 	}
 	switch mode {
+	case "directed":
+		return directedScenario(cfg)
 	case "", "workload":
 		return genWorkload(c2, genOpts{maxTxns: 6, pessRate: 0.4, faults: true, topo: true, backend: backend, asyncRate: async, onePCRate: onepc}), true
 	case "nofault":
@@ -72,6 +107,9 @@ func (Engine) Generate(cfg simkit.RunConfig) (any, bool) {
 // Prepare implements simkit.Preparer (outside the bubble).
 func (Engine) Prepare(cfg simkit.RunConfig, scenario any) {
 	setKnobs(scenario.(*Scenario).Knobs)
+	if sd := scenario.(*Scenario).Seed; sd != 0 {
+		cfg.Seed = sd
+	}
 	rand.Seed(int64(cfg.Seed)) // back-off jitter etc. of the code under test (global math/rand)
 }
 
@@ -82,6 +120,9 @@ func (Engine) Cleanup(cfg simkit.RunConfig, scenario any) {}
 func (Engine) Execute(t *testing.T, cfg simkit.RunConfig, scenario any) *simkit.RunResult {
 	sc := scenario.(*Scenario)
 	cfg.Mode = strings.TrimSuffix(cfg.Mode, "-R")
+	if sc.Seed != 0 {
+		cfg.Seed = sc.Seed
+	}
 	s := simkit.New(cfg.Seed)
 	res := &simkit.RunResult{}
 	var w *World
